@@ -130,7 +130,14 @@ impl Monitor for Mon {
                 None => verifies_as(Alg::Mi) || verifies_as(Alg::Sha),
             };
             let wrong_or_absent = matches!(reply.mac, RMac::None | RMac::BadMi | RMac::BadSha | RMac::MiOtherPass | RMac::ShaOtherPass | RMac::FoldMi | RMac::FoldSha);
+            // a client that enforces FINGERPRINT refuses a message whose FINGERPRINT is wrong or missing before the
+            // credential mechanism sees it: nothing is delivered, learned or marked (C10 says it is never delivered and
+            // completes nothing; this monitor adds that it must not count as a response for C07's bookkeeping either)
+            let fp_refused = w.cfg.fingerprint && reply.fp != super::server::RFp::Valid;
             match (&reply.class, to) {
+                _ if fp_refused => {
+                    expectation = Some(("refused-for-its-fingerprint", format!("{} with {:?} FINGERPRINT", mac_name(reply.mac), reply.fp)));
+                }
                 (RClass::Success | RClass::Error(_), Target::Req(i)) if finals_before.get(*i).copied().unwrap_or(1) == 0 => {
                     let i = *i;
                     if acceptable {
@@ -196,6 +203,13 @@ impl Monitor for Mon {
             });
             let tr = if reliable { "reliable" } else { "unreliable" };
             match *exp {
+                "refused-for-its-fingerprint" => {
+                    if delivered || !matches!(st.obs.res, CallRes::RecvErr(_)) || !st.obs.events.is_empty() {
+                        rep.violate(format!("message-with-wrong-or-missing-fingerprint-not-refused/{}", cls), format!("{:?} {:?}", st.obs.res, super::world::show_events(&st.obs.events)), replay());
+                    } else {
+                        rep.sym("refused-for-its-fingerprint");
+                    }
+                }
                 "delivered" | "indication-delivered" => {
                     if !delivered || !matches!(st.obs.res, CallRes::RecvOk) {
                         rep.violate(format!("authenticated-message-not-delivered/{}/{}/agreed={:?}", cls, tr, agreed_before), what.clone(), replay());
@@ -299,9 +313,17 @@ impl Monitor for Mon {
                 }
             }
             let good = if self.agreed == Some(Alg::Sha) { RMac::Sha } else { RMac::Mi };
+            let fps: Vec<super::server::RFp> = if w.cfg.fingerprint { vec![super::server::RFp::Valid, super::server::RFp::Bad, super::server::RFp::Absent] } else { vec![super::server::RFp::Absent] };
             for i in w.awaiting() {
                 for m in [good, RMac::MiOtherPass] {
-                    v.push(Event::Deliver { to: Target::Req(i), reply: Reply::plain(RClass::Success).with_mac(m) });
+                    for f in &fps {
+                        v.push(Event::Deliver { to: Target::Req(i), reply: Reply::plain(RClass::Success).with_mac(m).with_fp(*f) });
+                    }
+                }
+                if w.cfg.fingerprint && self.agreed.is_none() {
+                    // a response the other algorithm would make acceptable, refused for its FINGERPRINT: nothing is learned
+                    v.push(Event::Deliver { to: Target::Req(i), reply: Reply::plain(RClass::Success).with_mac(RMac::Sha).with_fp(super::server::RFp::Bad) });
+                    v.push(Event::Deliver { to: Target::Req(i), reply: Reply::plain(RClass::Success).with_mac(RMac::Sha).with_fp(super::server::RFp::Valid) });
                 }
             }
             return v;
@@ -422,6 +444,23 @@ pub fn run(ctx: &RunCtx) -> i32 {
         r.sym("application-supplied-credentials");
         shared.merge(r);
     }
+    // FINGERPRINT x short-term credentials: two requests over the narrow alphabet, every reply with a right, wrong and missing
+    // FINGERPRINT (a message refused for its FINGERPRINT must not clear a marker, learn an algorithm or end a transaction)
+    {
+        let mut r = Report::new();
+        for (t, m) in [
+            (Transport::Unreliable { rto_ms: 100, gran_ms: 1, rm: 2, rc: 2 }, Mech::ShortTerm(Some(false))),
+            (Transport::Unreliable { rto_ms: 100, gran_ms: 1, rm: 2, rc: 1 }, Mech::ShortTerm(None)),
+            (Transport::Reliable { timeout_ms: 300 }, Mech::ShortTerm(None)),
+        ] {
+            let cfg = Cfg { transport: t, mech: m, fingerprint: true, max_tx: 10, cred: 0, method: 1 };
+            let st = bfs(&cfg, &apps, &Mon::narrow(2, &cfg), if thorough { 9 } else { 7 }, 1_500_000, &mut r);
+            r.states += st.states;
+            r.transitions += st.transitions;
+        }
+        r.sym("fingerprint-with-short-term");
+        shared.merge(r);
+    }
     // many requests marked at once: N outstanding requests (40; thorough also 130), each gets a response under another
     // password, then all time out: every one ends ProtectionViolated
     {
@@ -464,9 +503,9 @@ pub fn run(ctx: &RunCtx) -> i32 {
         rep,
         Finish {
             level: "model_checking",
-            rule: format!("breadth-first exploration of the real client to depth {} for 2 transports x algorithm {{to be learned, MI, SHA256}} over {{Send (<=2), Indicate, Timer, AdvanceTo(next point, +1 ms, beyond), Deliver(each awaiting request x {{valid MI, valid SHA256, both, none, corrupted MI, corrupted SHA256, MI / SHA256 under another password, MI wrong in two bytes four apart with the same mask, SHA256 with every byte inverted}} as success (and 4 of them as error response), Deliver(indication x the 8 kinds), exact duplicate of the last buffer}}; replies are built by the reference codec with independent HMACs; plus the same alphabet with three requests in flight (one level shallower), four requests in flight over a narrow alphabet (Send, Timer, AdvanceTo, one acceptable and one wrongly keyed reply per awaiting request) four levels deeper, requests and indications built from 4 application attribute lists that pre-populate USERNAME / MESSAGE-INTEGRITY / MESSAGE-INTEGRITY-SHA256 under the application's own key (depth 5 / 6, algorithm learned along the way; these six configurations also rotate through three credential sets - short ASCII, 70-byte user with 129-byte password, non-ASCII user with a password rewritten by OpaqueString enforcement - methods 0x001 / 0x080 / 0xFFF and fingerprint on / off), a directed run with 40 (thorough 130) outstanding requests that each receive a wrongly keyed response and then time out together, and deviation-bounded runs on the default timing. Monitor: agreed := configured, else learned at the first delivered response; acceptable responses are delivered, everything else is not; wrong / absent integrity => ProtectionViolated at once on reliable transport, ignored (Err, no events) on unreliable transport and ProtectionViolated instead of TimedOut at the end unless an acceptable response arrived; both-MACs and other-algorithm replies only need to be rejected; every request and indication sent carries USERNAME and integrity attributes that verify under the password (the agreed kind once agreed)", depth),
+            rule: format!("breadth-first exploration of the real client to depth {} for 2 transports x algorithm {{to be learned, MI, SHA256}} over {{Send (<=2), Indicate, Timer, AdvanceTo(next point, +1 ms, beyond), Deliver(each awaiting request x {{valid MI, valid SHA256, both, none, corrupted MI, corrupted SHA256, MI / SHA256 under another password, MI wrong in two bytes four apart with the same mask, SHA256 with every byte inverted}} as success (and 4 of them as error response), Deliver(indication x the 8 kinds), exact duplicate of the last buffer}}; replies are built by the reference codec with independent HMACs; plus the same alphabet with three requests in flight (one level shallower), four requests in flight over a narrow alphabet (Send, Timer, AdvanceTo, one acceptable and one wrongly keyed reply per awaiting request) four levels deeper, requests and indications built from 4 application attribute lists that pre-populate USERNAME / MESSAGE-INTEGRITY / MESSAGE-INTEGRITY-SHA256 under the application's own key (depth 5 / 6, algorithm learned along the way; these six configurations also rotate through three credential sets - short ASCII, 70-byte user with 129-byte password, non-ASCII user with a password rewritten by OpaqueString enforcement - methods 0x001 / 0x080 / 0xFFF and fingerprint on / off), two requests on fingerprint-enforcing clients with every reply carrying a right, wrong or missing FINGERPRINT (a message refused for its FINGERPRINT is refused entirely: no delivery, no learning, no marker), a directed run with 40 (thorough 130) outstanding requests that each receive a wrongly keyed response and then time out together, and deviation-bounded runs on the default timing. Monitor: agreed := configured, else learned at the first delivered response; acceptable responses are delivered, everything else is not; wrong / absent integrity => ProtectionViolated at once on reliable transport, ignored (Err, no events) on unreliable transport and ProtectionViolated instead of TimedOut at the end unless an acceptable response arrived; both-MACs and other-algorithm replies only need to be rejected; every request and indication sent carries USERNAME and integrity attributes that verify under the password (the agreed kind once agreed)", depth),
             assumptions: vec!["single user / password pair".into(), "indications carrying both MACs are not judged (the statement speaks of responses)".into()],
-            required_symbols: vec!["bfs-configs", "delivered-authenticated", "ignored-unauthenticated", "protection-violated-on-reliable", "rejected-both-or-other-algorithm", "protection-violated-at-timeout", "plain-timeout", "outgoing-packet-authenticated", "deviation-runs", "Redeliver", "three-requests", "four-requests-narrow", "application-supplied-credentials", "many-marked-requests"],
+            required_symbols: vec!["bfs-configs", "delivered-authenticated", "ignored-unauthenticated", "protection-violated-on-reliable", "rejected-both-or-other-algorithm", "protection-violated-at-timeout", "plain-timeout", "outgoing-packet-authenticated", "deviation-runs", "Redeliver", "three-requests", "four-requests-narrow", "application-supplied-credentials", "many-marked-requests", "fingerprint-with-short-term", "refused-for-its-fingerprint"],
             min_outcomes: 8,
             exhaustive: true,
             bounds: json!({"depth": depth}),
